@@ -14,19 +14,19 @@ E4 = "E4 configuration explorer"
 CLAIMS = {
     "C02": dict(engine=E3, ref="DESIGN.md §5 C02",
                 text="every history of install/drop/panic operations up to the stated depth over the stated alphabet (all install flavours, repeated targets, page-straddling, thunk, packed and page-aligned targets, up to `depth` lifetimes) is executed on the implementation; after every operation every target is called and every entry byte compared with a reference model (stack of behaviours per target)",
-                note="bounded by depth and alphabet (evidence.coverage.bound); x86-64 Linux code path; a subset of the histories is replayed on the unmodified crate",
+                note="bounded by depth and alphabet (evidence.coverage.bound); x86-64 Linux code path; a subset of the histories is replayed on the unmodified crate; plus wide lifetimes (every k up to 56 / 500 installations alive at once, 3 orders, repeats, both endings), refused installations of 8 kinds at every position, and a reduced-depth copy against a build without debug assertions",
                 technique="exhaustive enumeration of operation sequences up to a depth on the real code (stateless search, fork isolation) against a reference model"),
     "C03": dict(engine=E3, ref="DESIGN.md §5 C03",
                 text="the same exhaustive history exploration with a byte-exact diff of a synthetic code arena (functions packed at 16-byte pitch around the targets), calls of never-faked neighbours/siblings/instantiations after every operation, a page-hash snapshot of every executable mapping of the process, and a check that nothing the injector does not own is unmapped",
-                note="bounded by depth and alphabet; the full-text snapshot runs on a shallower depth (see evidence); ARM back-ends are covered at placement level by the C15/C16 checks",
+                note="bounded by depth and alphabet; the full-text snapshot runs on a shallower depth (see evidence); ARM back-ends are covered at placement level by the C15/C16 checks; plus a concurrent part (E2): a thread without a guard calls a never-faked function on the same code page while another thread fakes and un-fakes, every schedule at the crate's OS calls",
                 technique="exhaustive enumeration of operation sequences up to a depth on the real code, memory-diff invariant in every reached state"),
     "C12": dict(engine=E3, ref="DESIGN.md §5 C12",
                 text="in every state reached by every install history up to the depth, the set of live trampoline mappings handed out by mmap equals the set of live installations; every munmap is checked against the set of injector-owned mappings (address, page-rounded length); plus a long run of mixed cycles compared through /proc/self/maps",
-                note="mappings are observed at the crate's mmap/munmap interface (interposed libc); the cycle run (20 000 quick / 100 000 thorough mixed lifetimes, every third ending by unwinding) compares the executable anonymous mappings in /proc/self/maps before and after, on the mounted and on the unmodified crate",
+                note="mappings are observed at the crate's mmap/munmap interface (interposed libc); the cycle run (20 000 quick / 100 000 thorough mixed lifetimes, every third ending by unwinding) compares the executable anonymous mappings in /proc/self/maps before and after, on the mounted and on the unmodified crate; plus wide lifetimes (k up to 56 / 500 installations alive at once)",
                 technique="exhaustive enumeration of operation sequences with an explicit resource-state invariant (owned mappings = live installations) in every state"),
     "C17": dict(engine=E3, ref="DESIGN.md §5 C17",
                 text="for every API call of every install history up to the depth, every code byte that changed (observed at every OS call of the crate and at API entry/return) must be covered by a later flush request that saw its final value",
-                note="__clear_cache is interposed; Linux path only; the ARM back-ends' writes go through the same common.rs functions",
+                note="__clear_cache is interposed; Linux path only; the ARM back-ends' writes go through the same common.rs functions; AArch64 / 32-bit ARM placements are run with the flush log on as well; a reduced-depth copy runs against a build without debug assertions",
                 technique="exhaustive enumeration of operation sequences; write/flush protocol invariant checked on the logged OS-call trace of every transition"),
 }
 
@@ -37,23 +37,23 @@ CLAIMS.update({
                 technique="exhaustive enumeration of a structured address/OS-answer domain on the real installer with an OS model; independent decoder + real execution as oracle"),
     "C07": dict(engine=E3, ref="DESIGN.md §5 C07",
                 text="every sequence of begin / matching call / non-matching call / scope end / panic / outside call up to the depth, all lifetimes of a history evaluating the same fake!(…, times: N) source line, N in {0,1,2}, each history from a pristine process image; every lifetime must get the verdict the reference model gives a first lifetime",
-                note="bounded by depth and N; the deep exploration uses one when+returns+times arm; every `times` arm of the safe/unsafe fn kinds is additionally re-evaluated by 2-3 lifetimes from one source line (generated programs, against the unmodified crate)",
+                note="bounded by depth and N; the deep exploration uses one when+returns+times arm; every `times` arm of the safe/unsafe fn kinds is additionally re-evaluated by 2-3 lifetimes from one source line (generated programs, against the unmodified crate); budgets next to 2^8 (255, 256, 257) are exercised with long lifetimes; an operation K builds a pair ahead of its installation",
                 technique="exhaustive enumeration of operation sequences up to a depth on the real code (fork per history) against a reference model"),
     "C11": dict(engine=E1, ref="DESIGN.md §5 C11",
                 text="the real allocator + installer (x86-64 and AArch64-Linux, page sizes 4/16/64 KiB) run against a model of the neighbourhood: empty, full, full except one free page at each listed offset incl. both window ends and just outside, and every single (thorough: double) deviation of the kernel's answer; success must branch to exactly the kept mapping, failure must be a panic with the function untouched and every obtained mapping given back",
-                note="one-free-page offsets: boundary + strided set in quick, all 65 537 for selected configurations in thorough (evidence lists which)",
+                note="one-free-page offsets: boundary + strided set in quick, all 65 537 for selected configurations in thorough (evidence lists which); both build profiles of the mounted crate (dev, release)",
                 technique="exhaustive enumeration of environment layouts and bounded OS-answer deviations on the real allocator with an OS model"),
     "C13": dict(engine=E1, ref="DESIGN.md §5 C13",
                 text="every instruction sequence the x86-64 installer emits over the C01 placement domain is executed on an abstract machine with a fully symbolic register file (so the verdict holds for all register/stack contents): write set within {rax,r10,r11}, no read of a caller register, stack pointer unchanged; plus assembly probes on the host CPU with walking patterns in all argument, vector, stack and callee-saved positions for the short and long trampoline form",
-                note="x87/MXCSR not probed; ARM register discipline is judged under C15/C16",
+                note="x87/MXCSR not probed; ARM register discipline is judged under C15/C16; every fake! arm is additionally instantiated with structs passed by value (generated programs)",
                 technique="exhaustive enumeration of emitted instruction sequences over the placement domain, symbolic-register abstract machine, concrete host probes"),
     "C15": dict(engine=E1, ref="DESIGN.md §5 C15",
                 text="the real AArch64 emitters run on the host: trampoline for every 16-bit value in every chunk position against 4 backgrounds plus a boundary cross product; Linux entry branch for word-aligned displacements through the allocator path and beyond the window through the private encoder; macOS ADRP/ADD/BR encoder over page differences x low-12 boundary values; every result executed by an independent A64 abstract machine, every distinct word cross-decoded by llvm-mc-14",
-                note="no AArch64 hardware; quick tier strides the displacement and page-difference ranges (thorough enumerates them)",
+                note="no AArch64 hardware; quick tier strides the displacement and page-difference ranges (thorough enumerates them); both build profiles of the mounted crate",
                 technique="exhaustive enumeration of encoder inputs on the real emitters; independent decoder/abstract machine cross-checked with llvm-mc"),
     "C16": dict(engine=E1, ref="DESIGN.md §5 C16",
                 text="the real 32-bit ARM installer run on the host for the three entry cases x in-page positions (incl. page-straddling) x fake addresses (each byte exhaustively, both instruction-set states) x three target bases; an independent A32/T32 abstract machine checks the literal actually read, the interworking branch, the bytes changed and restored, and the registers written",
-                note="no ARM hardware; known finding: Thumb sequence uses r7 (see known_findings.txt)",
+                note="no ARM hardware; known finding: Thumb sequence uses r7 (see known_findings.txt); both build profiles; pointer-sized casts of patch_arm.rs go through the 32-bit types (mount rule R5)",
                 technique="exhaustive enumeration of encoder inputs on the real emitter; independent A32/T32 abstract machine cross-checked with llvm-mc"),
 })
 
@@ -64,33 +64,33 @@ CLAIMS.update({
                 technique="stateless DFS over thread schedules with iterative preemption bounding (CHESS style) on the real code"),
     "C05": dict(engine=E3, ref="DESIGN.md §5 C05",
                 text="every operation sequence up to the depth over begin / calls caught inside or propagating out of the scope / scope end / user panic / outside call with 0-2 pending call-count expectations (fork per history: exit status decides abort vs panic, exactly one panic payload, restored bytes, lock reusable by the next lifetime); plus every schedule of the C04 harness in which a holder lets go by panicking while another thread waits",
-                note="library-raised installation failures (signature mismatch, null pointer, boolean refusal, allocation exhaustion, one-shot and persistent mprotect failure) are injected at every position of every install history up to the depth (evidence.coverage.refusal_histories); after every history a fresh thread must obtain and use a new injector within 10 s",
+                note="library-raised installation failures (signature mismatch, null pointer, boolean refusal, allocation exhaustion, one-shot and persistent mprotect failure) are injected at every position of every install history up to the depth (evidence.coverage.refusal_histories); after every history a fresh thread must obtain and use a new injector within 10 s; refusal kind 7 = straddling target whose second page refuses mprotect",
                 technique="exhaustive enumeration of operation sequences with injected panics (crash points) on the real code, fork isolation; schedule exploration for the concurrent part"),
     "C06": dict(engine=E3, ref="DESIGN.md §5 C06",
                 text="sequential: every sequence of matching / non-matching calls (caught or propagating), scope ends and panics up to the depth for N in 0..3 against a reference model; concurrent: k <= N+2 matching calls split over 1-3 caller threads under every schedule (3 callers: preemption-bounded), and 8/16 identical single-call threads with symmetry reduction; exactly min(k,N) admissions, scope-exit verdict and message in every schedule",
-                note="bounds and caps in evidence.coverage; the counter is the instrumented atomic of the scheduled mount",
+                note="bounds and caps in evidence.coverage; the counter is the instrumented atomic of the scheduled mount; budgets next to 2^8 and 2^16 (thorough 2^20) with long lifetimes; a 12-arm matrix of `times` arms under 2-3 concurrent callers incl. non-matching ones",
                 technique="exhaustive enumeration of call sequences; stateless DFS over schedules with preemption bounding for the concurrent part"),
 })
 
 CLAIMS.update({
     "C08": dict(engine=E4, ref="DESIGN.md §5 C08",
                 text="every arm of fake! found in macros.rs at check time is instantiated by one generated program (canonical well-typed use) compiled separately by rustc against the unmodified crate; every compiled arm is driven through every call script over {matching, non-matching} up to length N+2 for N in 0..2, each in its own process, and compared call by call with one reference model (when guards, rejected calls have no side effect, assign before returns, returns evaluated per call with arguments in scope, times as a budget, scope-exit verdict, abort for non-unwinding ABIs)",
-                note="one canonical instantiation per arm (two parameters, one by reference/pointer); thorough adds N=3 and scripts up to N+3",
+                note="one canonical instantiation per arm (two parameters, one by reference/pointer); thorough adds N=3 and scripts up to N+3; two more generated programs per arm: user types named like the macro's own imports, and structs passed by value",
                 technique="exhaustive enumeration of macro arms x call scripts against a reference model; rustc accept/reject observed per arm"),
     "C09": dict(engine=E4, ref="DESIGN.md §5 C09",
-                text="all ordered pairs of a 27-type family (arity, one parameter type, return type, reference mutability, raw-pointer mutability, unsafety, ABI, nested fn pointers, case, equal-length names) through func! and closure!, all ordered pairs of 16 fake!/func!-spelling configurations, every fake! arm against a target of every function kind, all ordered pairs of 5 async output types, checked x unchecked mixes and null pointers, executed against the unmodified crate: refusal iff the types are not written identically, message class, target bytes unchanged after a refusal",
-                note="pairs differing only in lifetime spelling are executed but not judged (as the property says)",
+                text="all ordered pairs of a 45-type family (arity, one parameter type, return type, reference mutability, raw-pointer mutability, unsafety, ABI, nested fn pointers, case, equal-length names) through func! and closure!, all ordered pairs of 16 fake!/func!-spelling configurations, every fake! arm against a target of every function kind, all ordered pairs of 5 async output types, checked x unchecked mixes and null pointers, executed against the unmodified crate: refusal iff the types are not written identically, message class, target bytes unchanged after a refusal",
+                note="pairs differing only in lifetime spelling are executed but not judged (as the property says); the family now has 45 types (const-generic arguments incl. char, array lengths, tuple vs two parameters, generic arguments, trait objects, prefix names), dev and release build of the crate; probe pairs on an injector after every prefix of <= 2 earlier operations, also while unwinding",
                 technique="exhaustive enumeration of signature pairs over a structured type family, executed on the real crate"),
     "C10": dict(engine=E1, ref="DESIGN.md §5 C10",
                 text="gate: 26 target signatures (bool-returning of several shapes; return types that merely end in `-> bool`, contain it elsewhere, or resemble bool) x both values against the unmodified crate; stub: both values x every placement of the C01 domain on the x86-64 abstract machine and by real calls, the AArch64 stub on the A64 machine, a host assembly probe with walking register patterns, and all install histories with two boolean targets alive together",
-                note="AArch32 forwards to Rust functions; its branch is judged by C16",
+                note="AArch32 forwards to Rust functions; its branch is judged by C16; the gate runs against a dev and a release build and observes the target while the injector that refused is still alive",
                 technique="exhaustive enumeration of a signature family (gate) and of placements/histories (stub) on the real code"),
 })
 
 CLAIMS.update({
     "C14": dict(engine=E3, ref="DESIGN.md §5 C14",
                 text="every sequence over {fake async function f with the checked or unchecked macros, drop injector, panic} up to the depth over a family of 8 sibling async functions (two with equal output type, &str->String, 128-byte by-memory output, unit, method, one that pends once, one with a drop-counted argument); after every operation every function is awaited twice under a poll-counting executor (directly, nested in an outer async fn, on a second OS thread): faked functions complete on poll 1 with a value evaluated freshly in that await and without running the body, all others behave as originally, and everything is original again after the lifetime",
-                note="bounded by depth and family; histories are replayed on the unmodified crate",
+                note="bounded by depth and family; histories are replayed on the unmodified crate; an operation V makes the value expression of one await panic; a reduced-depth copy runs against a build without debug assertions",
                 technique="exhaustive enumeration of operation sequences up to a depth on the real code against a reference model"),
 })
 
